@@ -8,7 +8,7 @@
  * Units:
  *   str.kmp.init.table   kmp_init: raises for the empty pattern, otherwise sets up the state (i = j = 0, text/pattern
  *                        recorded) and lookup[k] == border(pat, k) for every k, hence 0 <= lookup[k] <= k
- *                        (bounded: every pattern of length <= KMP_MAXPAT, all byte contents)
+ *                        (bounded: every pattern of length <= KMP_TABLE_MAXPAT, all byte contents)
  *   str.kmp.search.exact the sequence of results of kmp_next equals the reference search: the first call (after a start
  *                        index was stored in state->i, as findsetup/replacesetup do) returns the first occurrence at or
  *                        after start; after a hit the caller either continues (string/find-all: next result is the
@@ -20,12 +20,9 @@
 #include "prelude.h"
 #include <stdlib.h>
 
-#ifndef KMP_MAXPAT
-#define KMP_MAXPAT 6
-#endif
-#ifndef KMP_MAXTEXT
+#define KMP_TABLE_MAXPAT 6    /* str.kmp.init.table: pattern lengths 0..6 (the switch in h_kmp_init_table) */
+#define KMP_MAXPAT 4          /* str.kmp.search.exact: pattern lengths 1..4, text lengths 0..8 (the switch in h_kmp_search) */
 #define KMP_MAXTEXT 8
-#endif
 #define STR_NULL ((void *)0)
 
 static int ref_is_border(const uint8_t *p, int32_t k, int32_t b) {
@@ -50,16 +47,28 @@ static int32_t ref_find(const uint8_t *t, int32_t n, const uint8_t *p, int32_t m
   return -1;
 }
 
-static uint8_t *mk_bytes(int32_t n) {
-  uint8_t *p = malloc((size_t)n);      /* content nondeterministic */
+/* Sizes: CBMC's array theory is cheap for objects of CONSTANT size and ruinous for the symbolic-size blocks used first
+ * (6-7M SAT variables). The harnesses therefore branch over the lengths and run the real code once per length with
+ * blocks of exactly that (constant) size - every length up to the bound is covered, every block is exact, so each
+ * access past a block is a failed pointer obligation. */
+static uint8_t *mk_bytes(size_t n) {
+  uint8_t *p = malloc(n);              /* content nondeterministic */
   __CPROVER_assume(p != STR_NULL);
   return p;
 }
+/* calloc model (assumed): a fresh zero-filled block of exactly n * sz bytes, or NULL */
+void *calloc(size_t n, size_t sz) {
+  if (nd_int()) return STR_NULL;
+  uint8_t *p = malloc(n * sz);
+  __CPROVER_assume(p != STR_NULL);
+  for (size_t q = 0; q < n * sz; q++) p[q] = 0;
+  return p;
+}
 
-void h_kmp_init_table(void) {
-  int32_t patlen = nd_i32(), textlen = nd_i32();
-  __CPROVER_assume(patlen >= 0 && patlen <= KMP_MAXPAT && textlen >= 0);
-  uint8_t *pat = mk_bytes(patlen);
+static void check_init_table(int32_t patlen) {
+  int32_t textlen = nd_i32();
+  __CPROVER_assume(textlen >= 0);
+  uint8_t *pat = mk_bytes((size_t)patlen);
   uint8_t *text = mk_bytes(0);         /* kmp_init must not read the text */
   struct kmp_state *s = malloc(sizeof(struct kmp_state));
   __CPROVER_assume(s != STR_NULL);
@@ -75,33 +84,65 @@ void h_kmp_init_table(void) {
   if (patlen >= 4 && s->lookup[patlen - 2] >= 2 && s->lookup[patlen - 1] == 0) REACH("kmp_init returns for a pattern needing repeated fallback");
   kmp_deinit(s);
 }
+void h_kmp_init_table(void) {
+  switch (nd_int()) {
+    case 0: check_init_table(0); break;
+    case 1: check_init_table(1); break;
+    case 2: check_init_table(2); break;
+    case 3: check_init_table(3); break;
+    case 4: check_init_table(4); break;
+    case 5: check_init_table(5); break;
+    case 6: check_init_table(6); break;
+    default: break;
+  }
+}
 
-void h_kmp_search(void) {
-  int32_t patlen = nd_i32(), textlen = nd_i32(), start = nd_i32();
-  __CPROVER_assume(patlen >= 1 && patlen <= KMP_MAXPAT && textlen >= 0 && textlen <= KMP_MAXTEXT && start >= 0 && start <= KMP_MAXTEXT + 1);
-  uint8_t *pat = mk_bytes(patlen);
-  uint8_t *text = mk_bytes(textlen);
+/* One step of the search sequence from each of the two kinds of state a caller can be in:
+ *   fresh  : state->i = start, state->j = 0 (after findsetup/replacesetup stored the start index, or after kmp_seti)
+ *   resumed: directly after a hit at r (r any real occurrence): i = r + patlen, j = lookup[patlen - 1]
+ * The fresh step proves that a hit leaves exactly the resumed state, so by induction over the calls the whole result
+ * sequence of string/find-all (resumed steps) and of replace-all/split (kmp_seti, fresh steps) equals the reference. */
+static void check_search(int32_t patlen, int32_t textlen) {
+  int32_t start = nd_i32();
+  __CPROVER_assume(start >= 0 && start <= KMP_MAXTEXT + 1);
+  uint8_t *pat = mk_bytes((size_t)patlen);
+  uint8_t *text = mk_bytes((size_t)textlen);
   struct kmp_state *s = malloc(sizeof(struct kmp_state));
   __CPROVER_assume(s != STR_NULL);
   kmp_init(s, text, textlen, pat, patlen);
-  s->i = start;                        /* findsetup / replacesetup */
-  int32_t from = start;
-  int hits = 0;
-  for (int n = 0; n <= KMP_MAXTEXT; n++) {
-    int32_t r = kmp_next(s);
-    __CPROVER_assert(r == ref_find(text, textlen, pat, patlen, from),
-                     "C17: kmp_next returns the first occurrence not before the resume point, -1 iff there is none");
-    if (r < 0) break;
-    hits++;
-    __CPROVER_assert(s->i == r + patlen, "C17: after a hit the scan position is just behind the occurrence");
-    if (nd_int()) {
-      from = r + 1;                    /* string/find-all: keep going, overlapping occurrences count */
-    } else {
-      from = r + patlen;               /* string/replace-all, string/split: resume behind the occurrence */
-      kmp_seti(s, from);
-    }
+  int32_t from;
+  int resumed = nd_int();
+  if (resumed) {
+    __CPROVER_assume(ref_occurs(text, textlen, pat, patlen, start));
+    s->i = start + patlen;
+    s->j = s->lookup[patlen - 1];
+    from = start + 1;                  /* overlapping occurrences count */
+  } else if (nd_int()) {
+    s->i = start;                      /* findsetup / replacesetup */
+    from = start;
+  } else {
+    kmp_seti(s, start);                /* replace-all / split */
+    from = start;
   }
-  REACH("search sequence ends");
-  if (hits >= 2) REACH("search sequence with at least two hits");
+  int32_t r = kmp_next(s);
+  __CPROVER_assert(r == ref_find(text, textlen, pat, patlen, from),
+                   "C17: kmp_next returns the first occurrence not before the resume point, -1 iff there is none");
+  if (r >= 0) {
+    __CPROVER_assert(s->i == r + patlen && s->j == s->lookup[patlen - 1], "C17: a hit leaves the resume state (scan position just behind the occurrence)");
+    REACH("kmp_next returns a hit");
+    if (resumed) REACH("kmp_next returns a second hit");
+  } else {
+    REACH("kmp_next returns no hit");
+  }
   kmp_deinit(s);
+}
+#define SEARCH_CASES(m) \
+  case 10 * m + 0: check_search(m, 0); break; case 10 * m + 1: check_search(m, 1); break; case 10 * m + 2: check_search(m, 2); break; \
+  case 10 * m + 3: check_search(m, 3); break; case 10 * m + 4: check_search(m, 4); break; case 10 * m + 5: check_search(m, 5); break; \
+  case 10 * m + 6: check_search(m, 6); break; case 10 * m + 7: check_search(m, 7); break; case 10 * m + 8: check_search(m, 8); break;
+void h_kmp_search(void) {
+  switch (nd_int()) {
+    SEARCH_CASES(1) SEARCH_CASES(2) SEARCH_CASES(3) SEARCH_CASES(4)
+    default: break;
+  }
 }
